@@ -467,7 +467,8 @@ bool journal_t::remove_xact(xact_t * xact)
 }
 
 std::size_t journal_t::read(parse_context_stack_t& context,
-                            hash_type_t hash_type)
+                            hash_type_t hash_type,
+                            bool should_clear_xdata)
 {
   std::size_t count = 0;
   try {
@@ -495,15 +496,19 @@ std::size_t journal_t::read(parse_context_stack_t& context,
     }
   }
   catch (...) {
-    clear_xdata();
+    if (should_clear_xdata)
+      clear_xdata();
     current_context = NULL;
     throw;
   }
 
   // xdata may have been set for some accounts and transaction due to the use
   // of balance assertions or other calculations performed in valexpr-based
-  // posting amounts.
-  clear_xdata();
+  // posting amounts.  A caller that reads several files into this journal
+  // keeps it until the last one, since it holds the running account totals
+  // that balance assertions in the later files are checked against.
+  if (should_clear_xdata)
+    clear_xdata();
 
   return count;
 }
